@@ -6,7 +6,7 @@
     All theorems quantify over EVERY label list = every client program (any number of handlers,
     RunHandlers / Stop / Close / Run calls and threads) and every schedule. *)
 From WM Require Import Base.Prelude Base.Count RouterLife.Model RouterLife.Monitor RouterLife.Inv
-                       RouterLife.ProofsA RouterLife.ProofsB RouterLife.ProofsW RouterLife.SelfClose RouterLife.Theorems RouterLife.Witness.
+                       RouterLife.ProofsA RouterLife.ProofsB RouterLife.ProofsW RouterLife.SelfClose RouterLife.Local RouterLife.Theorems RouterLife.Witness.
 
 (** Running() closed => each of the [run_n] handlers registered when Run's RunHandlers took
     handlersLock is started and holds its (one) subscription. *)
@@ -53,15 +53,30 @@ Theorem C10_started_implies_stoppable_fixed_witness :
 Proof. exact d4_fixed_witness. Qed.
 Print Assumptions C10_started_implies_stoppable_fixed_witness.
 
-(** Stop ends that handler only (step level; the composition into one reachable-state statement
-    and its link to the monitor clauses 5/6/8 is not mechanised, hence _partial): a Stop call on
-    h changes nothing but h's own cancel flag ... *)
-Theorem C10_stop_is_local_partial : forall s t h a c s' evs,
+(** Stop ends that handler only: in EVERY reachable state (all variants), whatever was done to
+    OTHER handlers (Stop calls, subscriptions ended by the environment), a started handler h2
+    that was not stopped itself ([h_stopreq]), whose subscription was not ended by the environment
+    ([h_envend]) - while nothing global happened ([glob]: Run context cancelled, Run's own cancel,
+    router closing) - is still in its receive loop with an open subscription and a live context,
+    takes its next message, and its publisher is open unless a handler SHARING it was stopped/ended. *)
+Theorem C10_stop_is_local : forall (f4 f14 f15 : bool) (ls : list label),
+  let s := run (rinit f4 f14 f15) ls in
+  forall h2, h_loop (hs s h2) <> LNone -> reason (hs s h2) = false -> glob s = false ->
+    h_loop (hs s h2) = LRange /\ h_subOpen (hs s h2) = true /\ h_cancel (hs s h2) = false
+    /\ step s (LRecv h2) <> None
+    /\ (forall p, h_pub (hs s h2) = Some p ->
+          (forall h1, h1 < nexth s -> h_pub (hs s h1) = Some p -> reason (hs s h1) = false) ->
+          pubClosed s p = false).
+Proof. exact stop_is_local. Qed.
+Print Assumptions C10_stop_is_local.
+
+(** the step-level facts behind it: a Stop call on h changes nothing but h's own flags ... *)
+Theorem C10_stop_changes_only_its_handler : forall s t h a c s' evs,
   thr s t = TStopRead h a \/ thr s t = TStopCall h a -> step s (LT t c) = Some (s', evs) ->
   (forall h', h' <> h -> hs s' h' = hs s h') /\ pubClosed s' = pubClosed s /\ cctx s' = cctx s /\ rcancel s' = rcancel s
   /\ closingCh s' = closingCh s /\ closedF s' = closedF s /\ hwg s' = hwg s /\ hlock s' = hlock s /\ mainp s' = mainp s /\ wat s' = wat s.
 Proof. exact stop_frame_globals. Qed.
-Print Assumptions C10_stop_is_local_partial.
+Print Assumptions C10_stop_changes_only_its_handler.
 
 (** ... a publisher is closed only by the goroutine of a handler that uses it, after that
     handler's own loop has ended ... *)
